@@ -110,10 +110,10 @@ def env() -> _Env:
             self.map: Dict[str, str] = {}
 
         @staticmethod
-        def Create() -> "Runfiles":
+        def Create(*a: Any, **k: Any) -> "Runfiles":
             return Runfiles()
 
-        def Rlocation(self, p: str) -> str:
+        def Rlocation(self, p: str, *a: Any, **k: Any) -> str:     # (the real one also takes source_repo=)
             return self.map.get(p, p)
 
     pkg = types.ModuleType("python")
@@ -158,7 +158,7 @@ def env() -> _Env:
         def __eq__(self, other: Any) -> bool:
             return self is other
 
-        def get_candidates(self, req):  # type: ignore[override]
+        def get_candidates(self, req=None, *a: Any, **k: Any):  # type: ignore[override]
             out = []
             want = None if req is None else utils.normalize_project_name(req.project_name)
             for name, rels in self.projects.items():
@@ -184,7 +184,7 @@ def env() -> _Env:
             c._c19_rel = rel
             return c
 
-        def resolve_candidate(self, candidate):  # type: ignore[override]
+        def resolve_candidate(self, candidate, *a: Any, **k: Any):  # type: ignore[override]
             rel = candidate._c19_rel
             reqs = [utils.parse_requirement(r) for r in rel["requires"]]
             di = containers.DistInfo(candidate.name, e.Version(rel["version"]), reqs)
@@ -845,6 +845,7 @@ def oracle_e2e(ctx: Ctx, layout: Dict[str, Any]) -> Optional[str]:
     except SystemExit:
         raise
     except Exception as ex:
+        common.reraise_harness_fault(ex)     # the Runfiles stand-in is the harness's
         if not layout.get("recompile"):
             return "compile_main crashed: %s: %s" % (type(ex).__name__, str(ex)[:200])
         # the second compilation (against the lock just written) crashed: judge the first lock
@@ -1023,6 +1024,7 @@ def correspondence(ctx: Ctx) -> None:
             ctx.count("e2e-skipped:exit")
             continue
         except Exception as ex:   # the front-end itself crashed (e.g. re-compiling the lock it just wrote)
+            common.reraise_harness_fault(ex)     # the Runfiles stand-in is the harness's
             ctx.count("e2e-crashed:" + type(ex).__name__)
             if layout_accepted(layout):
                 ctx.mismatch("statement-on-implementation:e2e", {"src": "e2e", "layout": layout},
